@@ -105,16 +105,18 @@ def minify(drop_semi=True):
         layout_handlers.update({
             EndStatement: layout_handler_semicolon_optional,
 
-            # these two rules rely on the normalized resolution
-            (OptionalSpace, EndStatement): layout_handler_semicolon_optional,
+            # this rule rely on the normalized resolution
             (EndStatement, CloseBlock): layout_handler_closebrace,
 
             # this is a fallback rule for when Dedent is defined by
             # some other rule, which won't neuter all optional
             # semicolons.
             (EndStatement, Dedent): rule_handler_noop,
-            ((OptionalSpace, EndStatement), CloseBlock):
-                layout_handler_closebrace,
+
+            # note that (OptionalSpace, EndStatement) remains mapped to
+            # the unconditional handler: that sequence is the empty
+            # statement that forms the body of a while loop, which
+            # automatic semicolon insertion does not restore.
         })
 
     def minify_rule():
